@@ -10,38 +10,111 @@ from .explore import Explorer, Stats, linear_replay, _jsonable
 
 # module-level table filled before the pool forks: index -> profile factory
 _FACTORIES: List[Callable] = []
-_LIMITS: Dict[str, int] = {}
 
 
-def _work(i: int):
+def _worker(wid: int, shared, n: int, conn):
+    """Search worker: pulls work items (any profile) until all are done."""
+    import time as _t
     from .. import core
-    # each worker gets its own scratch HOME (run dirs must not collide)
+    from .explore import SharedExplorer
+    from . import harness as H
     scratch = core.scratch_root() / f'w{os.getpid()}'
     scratch.mkdir(parents=True, exist_ok=True)
     core.hermetic_env(scratch)
-    prof = _FACTORIES[i]()
-    ex = Explorer(prof, max_states=_LIMITS['max_states'],
-                  max_seconds=_LIMITS['max_seconds'],
-                  max_violations=_LIMITS.get('max_violations', 3))
-    st = ex.run()
-    for v in st.violations:
-        v['profile_index'] = i
-        v['spec_name'] = prof.spec.get('name', '')
-    st.counters['spec:' + prof.spec.get('name', str(i))] = st.states
-    return st
+    explorers = {}
+    try:
+        while True:
+            item = shared.pop()
+            if item == 'done':
+                break
+            if item == 'wait':
+                H._ORIG_SLEEP(0.02)
+                continue
+            idx = item[0]
+            try:
+                ex = explorers.get(idx)
+                if ex is None:
+                    prof = _FACTORIES[idx]()
+                    prof.wid = f'p{idx}'
+                    ex = explorers[idx] = SharedExplorer(prof, idx, shared)
+                    ex.st.workflows = 0
+                ex.work(item)
+            except Exception:
+                import traceback
+                shared.fail(f'profile {idx} item {item[1:]!r}:\n'
+                            + traceback.format_exc())
+            finally:
+                shared.finish()
+    finally:
+        out = {}
+        for idx, ex in explorers.items():
+            for v in ex.st.violations:
+                v['profile_index'] = idx
+                v['spec_name'] = ex.p.spec.get('name', '')
+            out[idx] = ex.st
+        conn.send(out)
+        conn.close()
 
 
 def explore_all(ctx: Ctx, factories: List[Callable], *, max_states=3000,
-                max_seconds=240, budget_seconds: Optional[float] = None
-                ) -> Stats:
-    """Explore every profile (one per worker at a time)."""
-    global _FACTORIES, _LIMITS
+                max_seconds=240) -> Stats:
+    """Explore every profile with a pool of search workers sharing one
+    visited set per profile (work items: replay a prefix + one event)."""
+    global _FACTORIES
+    import multiprocessing as mp
+    from multiprocessing.managers import BaseManager
+    from .explore import Shared
     _FACTORIES = list(factories)
-    _LIMITS = {'max_states': max_states, 'max_seconds': max_seconds}
+    n = len(_FACTORIES)
+
+    class Mgr(BaseManager):
+        pass
+    Mgr.register('Shared', Shared)
+    mpc = mp.get_context('fork')
+    mgr = Mgr(ctx=mpc)
+    mgr.start()
     total = Stats()
-    results = pmap(_work, list(range(len(factories))), ctx.workers)
-    for st in results:
-        total.merge(st)
+    try:
+        shared = mgr.Shared(n, max_states, max_seconds, 3)
+        shared.push([(i, [], None, None) for i in reversed(range(n))])
+        procs = []
+        nw = max(1, min(ctx.workers, 16))
+        for wid in range(nw):
+            pc, cc = mpc.Pipe(duplex=False)
+            p = mpc.Process(target=_worker, args=(wid, shared, n, cc))
+            p.start()
+            cc.close()
+            procs.append((p, pc))
+        names = {}
+        for p, pc in procs:
+            try:
+                out = pc.recv()
+            except EOFError:
+                out = None
+            p.join()
+            if out is None or p.exitcode != 0:
+                total.error = total.error or (
+                    f'search worker died (exit {p.exitcode})')
+                continue
+            for idx, st in out.items():
+                total.merge(st)
+        sizes, capped, failed = shared.summary()
+        total.workflows = n
+        total.states = sum(sizes)
+        for i, sz in enumerate(sizes):
+            try:
+                nm = _FACTORIES[i]().spec.get('name', str(i))
+            except Exception:
+                nm = str(i)
+            total.counters[f'spec:{nm}'] = sz
+        if any(capped):
+            total.capped = True
+            total.cap_reason = '; '.join(
+                f'profile {i}: {c}' for i, c in enumerate(capped) if c)
+        if failed:
+            total.error = failed
+    finally:
+        mgr.shutdown()
     return total
 
 
